@@ -331,7 +331,7 @@ theorem footer_roundtrip (f : FileE) (hnb : f.footer ≠ .bad) :
 theorem restore_path (cfg : RCfg) (db : Int) (ex : Exists) (e : Entry) (k : Bytes) (o : ObjE)
     (hobj : e.obj = pobjOf k o) (hkey : e.key = k) (hk : o.kind ≠ .other)
     (hon : cfg.enableRestore = true) (hsz : 1 + o.ser.length + 2 + 8 ≤ cfg.maxBulk)
-    (hload : typeLoadable cfg.x.tgtMajor o.rtype = true) :
+    (hload : typeLoadable cfg.x.tgtMajor o.rtype = true) (hrht : cfg.replaceHashTag = false) :
     let payload := [o.rtype] ++ o.ser ++ [6, 0] ++ le64 (crc64Spec ([o.rtype] ++ o.ser ++ [6, 0])).toNat
     let params := [k, natToDec (ttlOf cfg.now e.expireAt), payload] ++
       (if cfg.x.tgtMajor ≥ 5 then
@@ -351,7 +351,7 @@ theorem restore_path (cfg : RCfg) (db : Int) (ex : Exists) (e : Entry) (k : Byte
       le64 (crc64Spec ([o.rtype] ++ o.ser ++ [6, 0])).toNat := by
     simp only [PObj.dump, pobjOf]
     exact dump_payload o.rtype o.ser
-  simp only [replayEntry, hobj, hkey]
+  simp only [replayEntry, dstKey, hrht, Bool.false_eq_true, if_false, hobj, hkey]
   have hrt : (pobjOf k o).rtype = o.rtype := rfl
   simp only [hrt, hot, hnf.1, hnf.2.1, or_self, if_false, hon, hsplit, hsize, decide_false, Bool.or_self,
     Bool.not_false, Bool.and_self, Bool.not_true, Bool.false_eq_true, hdump, hload, if_true]
@@ -362,7 +362,7 @@ theorem restore_path (cfg : RCfg) (db : Int) (ex : Exists) (e : Entry) (k : Byte
     key has an expiry — `pexpire key ttl`. -/
 theorem expand_path (cfg : RCfg) (db : Int) (ex : Exists) (e : Entry) (k : Bytes) (o : ObjE)
     (hobj : e.obj = pobjOf k o) (hkey : e.key = k) (hwf : o.wf) (hk : o.kind ≠ .other)
-    (hoff : cfg.enableRestore = false) (hfresh : ex.has db k = false) :
+    (hoff : cfg.enableRestore = false) (hfresh : ex.has db k = false) (hrht : cfg.replaceHashTag = false) :
     (replayEntry cfg db ex e).1 =
       [cmdB b!"exists" [k]] ++ o.cmds k ++
         (if e.expireAt ≠ 0 then [cmdB b!"pexpire" [k, natToDec (ttlOf cfg.now e.expireAt)]] else []) ∧
@@ -373,8 +373,12 @@ theorem expand_path (cfg : RCfg) (db : Int) (ex : Exists) (e : Entry) (k : Bytes
   have hfb : (pobjOf k o).firstBin = true := by simp [pobjOf, PObj.firstBin]
   have hrt : (pobjOf k o).rtype = o.rtype := rfl
   have hexec := execCmd_pobjOf cfg.x k o hwf hk
-  simp only [replayEntry, expandEntry, hobj, hkey, hrt, hot, hnf.1, hnf.2.1, hnf.2.2, or_self, if_false, hoff,
-    Bool.false_and, Bool.not_false, if_true, hfb, hfresh, Bool.false_eq_true, hexec]
+  have hrw : ∀ cs : List Cmd, cs.map (rewriteCmd k k) = cs := fun cs => by
+    induction cs with
+    | nil => rfl
+    | cons c cs ih => simp [rewriteCmd, ih]
+  simp only [replayEntry, expandEntry, dstKey, hrht, hobj, hkey, hrt, hot, hnf.1, hnf.2.1, hnf.2.2, or_self, if_false,
+    hoff, Bool.false_and, Bool.not_false, if_true, hfb, hfresh, Bool.false_eq_true, hexec, Option.map_some, hrw]
   constructor <;> simp
 
 /-- expansion path end to end for one entry (fresh key): ALL requests `Replay`
@@ -383,9 +387,10 @@ theorem expand_path (cfg : RCfg) (db : Int) (ex : Exists) (e : Entry) (k : Bytes
     (`ttlOf`: remaining ms, 1 = expires at once, 0 = none) -/
 theorem expand_path_final (cfg : RCfg) (db : Int) (e : Entry) (k : Bytes) (o : ObjE)
     (hobj : e.obj = pobjOf k o) (hkey : e.key = k) (hwf : o.wf) (hk : o.kind ≠ .other)
-    (hne : o.nonempty) (hd : o.members.Nodup) (hoff : cfg.enableRestore = false) :
+    (hne : o.nonempty) (hd : o.members.Nodup) (hoff : cfg.enableRestore = false)
+    (hrht : cfg.replaceHashTag = false) :
     applyCmds [] (replayEntry cfg db [] e).1 = some [(k, o.value, ttlOf cfg.now e.expireAt)] := by
-  obtain ⟨hreq, _⟩ := expand_path cfg db [] e k o hobj hkey hwf hk hoff rfl
+  obtain ⟨hreq, _⟩ := expand_path cfg db [] e k o hobj hkey hwf hk hoff rfl hrht
   rw [hreq, applyCmds_append, applyCmds_append]
   simp only [applyCmds, apply_exists, Option.bind_some]
   rw [cmds_frame [] k o hk hne hd rfl]
@@ -484,11 +489,11 @@ example : (nextValue { thr := 1 } 4 {} (exHashKey.enc ++ [0xFF])).map (fun r => 
 def exEntry : Entry := { db := 0, key := [108], type := 10, expireAt := 6000, obj := pobjOf [108] exList }
 example : (replayEntry { enableRestore := true, now := 5000 } 0 [] exEntry).2.2 = true :=
   (restore_path { enableRestore := true, now := 5000 } 0 [] exEntry [108] exList rfl rfl (by decide) rfl
-    (by decide) (by decide)).2
+    (by decide) (by decide) rfl).2
 example : applyCmds [] (replayEntry { enableRestore := false, now := 5000 } 0 [] exEntry).1 =
     some [([108], exList.value, 1000)] :=
   expand_path_final { enableRestore := false, now := 5000 } 0 exEntry [108] exList rfl rfl (by decide) (by decide)
-    (by decide) (by decide) rfl
+    (by decide) (by decide) rfl rfl
 -- TTL: expiry 1000 ms ahead / already past
 example : ttlOf 5000 6000 = 1000 ∧ ttlOf 5000 4000 = 1 ∧ ttlOf 5000 0 = 0 := by decide
 
